@@ -51,7 +51,48 @@ PROGRAMS = [
     ("fails-with-two-braces-open", "void f(void) { { int y ]"),
     ("same-literals-and-tails-elsewhere", "long b =\n 10u + 010u; unsigned long c = 10ul; double e = 10.0f + 0x1.0p1f;\nchar *s = \"u\" \"u\"; int w = L'u';"),
 ]
+# One program per RARELY TAKEN parser branch, each in an accepted and in a
+# failing (cut-off) variant: state that leaks is usually set on a rare branch
+# and observed on a common one.  They are parsed under one file name each
+# (alternating), the PROGRAMS above under both.
+RARE = [
+    # runs of adjacent string literals (initializer, call arguments,
+    # _Static_assert message, _Pragma operand); a lexer error right after a run
+    ("string-runs", 'char *s = "12" "34"; void f(void){ g("ab" "cd", "x" "y"); } _Static_assert(1, "m" "n"); _Pragma("a" "b") int z;'),
+    ("string-run-then-illegal-character", 'char *s = "ab" "cd" @;'),
+    ("string-run-in-call-then-bad-octal", 'void f(void){ g("p" "q" 09); }'),
+    # declarations without a type specifier outside file scope
+    ("typeless-declaration-in-block-then-typedef-redeclared", "typedef int T; void f(void){ extern helper(); { int T; T = 2; } }"),
+    ("typeless-declaration-in-for-init(fails)", "void f(void){ for (register i = 0; i < 3; i++) ; }"),
+    ("typeless-declaration-in-k&r-list(fails)", "int g(a) register a; { return a; }"),
+    ("typedef-name-redeclared-as-member-parameter-local", "typedef int T; struct S { char T; }; int f(int T); void h(void){ int T; T = 1; }"),
+    # for-declaration whose body reads the enclosing '}' as lookahead
+    ("for-declaration-with-if-without-else-before-rbrace", "void f(void){ for (int i = 0; i < 2; i++) if (i) g(); }"),
+    ("for-declaration-with-if-without-else-cut-off", "void f(void){ for (int i = 0; i < 2; i++) if (i) g(); "),
+    # three-deep braces, a local shadowing a typedef that is used after the inner block
+    ("three-deep-braces-shadowed-typedef-used-after-inner-block", "typedef int T; void f(void){ { int T; { int q; } T = 1; } T y; }"),
+    ("three-deep-braces-shadowed-typedef-cut-off", "typedef int T; void f(void){ { int T; { int q; } T = 1; } T y"),
+    # _Atomic(...), statement expression, K&R definition with enumerators in the list
+    ("atomic-statement-expression-k&r-enumerators", "typedef int T; _Atomic(T) b; int x = ({ int y = 1; y; }); int k(a) enum { A, B } a; { return A; }"),
+    ("atomic-specifier-cut-off", "typedef int T; _Atomic(T a;"),
+    ("statement-expression-cut-off", "int x = ({ int y = 1; y );"),
+    ("k&r-enumerator-list-cut-off", "int k(a) enum { A, B a; { return A; }"),
+    # [*], designators, _Static_assert in a struct and in a for-init
+    ("star-bound-designators-static-assert-in-struct-and-for", 'void f(int n, int a[*]); struct S s = { .a = 1, .b[2] = 3 }; struct Z { int a; _Static_assert(1, "m"); }; void h(void){ for (_Static_assert(1, "x"); ;) ; }'),
+    ("star-bound-cut-off", "void f(int n, int a[*);"),
+    ("designator-cut-off", "struct S s = { .a = 1, .b[2] = };"),
+    ("static-assert-in-struct-cut-off", 'struct Z { int a; _Static_assert(1, "m" };'),
+    # #pragma / #line in odd places
+    ("directives-inside-struct-and-after-if", 'struct S {\n#pragma pack\n int a; }; void f(void){ if (1)\n#line 5 "z.h"\n ; }'),
+    ("pragma-inside-initializer(fails)", "int a[] = {\n#pragma inside\n1 };"),
+]
 FILENAMES = ["a.c", "dir/b.h"]
+# the depth-4 alphabet: one program per way of leaving state behind
+LEAN = ("declares-typedef", "declares-variable-of-same-name", "probes-name-implicit-int",
+        "fails-in-two-nested-scopes-after-typedef", "fails-in-lexer", "changes-file-and-line",
+        "fails-with-pragma-string-pending", "same-pragma-on-another-line", "fails-at-eof-inside-struct",
+        "empty", "k-and-r-definition", "result-depends-on-filename",
+        "fails-in-scope-shadowing-a-typedef", "bare-line-directive")
 CONTROL_PROGRAMS = ("declares-typedef", "result-depends-on-filename")
 
 
@@ -66,10 +107,7 @@ class ParserSpec:
 
         self.name = {"real": "CParser", "drop": "CParser(ASTs dropped)"}.get(variant, "control-parser")
         self.variant = variant
-        self.ops = [{"what": w, "text": t, "filename": f}
-                    for (w, t) in PROGRAMS for f in FILENAMES]
-        if variant == "control":
-            self.ops = [o for o in self.ops if o["what"] in CONTROL_PROGRAMS]
+        self.ops = parser_ops(variant)
 
         class StickyLexer(CLexer):
             _first = None
@@ -398,8 +436,19 @@ def gen_spec(rp=0):
 def parser_ops(variant="real"):
     ops = [{"what": w, "text": t, "filename": f} for (w, t) in PROGRAMS for f in FILENAMES]
     if variant == "control":
-        ops = [o for o in ops if o["what"] in CONTROL_PROGRAMS]
+        return [o for o in ops if o["what"] in CONTROL_PROGRAMS]
+    ops += [{"what": w, "text": t, "filename": FILENAMES[k % 2]} for k, (w, t) in enumerate(RARE)]
     return ops
+
+
+def core_indices():
+    """PROGRAMS x both file names (the operations explored one level deeper
+    than the whole alphabet)."""
+    return list(range(len(PROGRAMS) * len(FILENAMES)))
+
+
+def lean_indices():
+    return [i for i, o in enumerate(parser_ops("real")) if o["what"] in LEAN]
 
 
 def _left_behind_work(i):
@@ -476,9 +525,33 @@ def run(tier):
         R.fail("harness:control-not-detected", {"part": "control"},
                "a lexer that keeps its first file name was not flagged by the history explorer")
 
-    # (1) CParser
-    depth = 3 if quick else 4
-    r = hist.explore(PREF, depth, base[PREF], plen=2)
+    # (1) CParser: the whole alphabet to depth d_all, the core (PROGRAMS x 2
+    # file names) one level deeper, the lean alphabet one level deeper still
+    # in thorough; an exploration over a smaller alphabet only runs the
+    # histories that are longer than what the larger one already covered
+    core_idx, lean_idx = core_indices(), lean_indices()
+    d_all, d_core, d_lean = (2, 3, 3) if quick else (3, 3, 4)
+    depth = d_lean
+    r = hist.explore(PREF, d_all, base[PREF], plen=min(2, d_all))
+    parts = [("all", NP, d_all, 1)]
+    extra = []
+    if d_core > d_all:
+        extra.append(("core", core_idx, d_core, d_all + 1))
+    if d_lean > max(d_all, d_core):
+        extra.append(("lean", lean_idx, d_lean, max(d_all, d_core) + 1))
+    for nm, idx, dd, ml in extra:
+        r2 = hist.explore(PREF, dd, base[PREF], plen=2, alphabet=idx, min_len=ml)
+        parts.append((nm, len(idx), dd, ml))
+        for k in ("histories", "applied", "same_twice"):
+            r[k] += r2[k]
+        r["states"] |= r2["states"]
+        r["fails"] += r2["fails"]
+        for k, v in r2["last_state"].items():
+            r["last_state"].setdefault(k, set()).update(v)
+        for k, v in r2["outcome_kinds"].items():
+            r["outcome_kinds"][k] = r["outcome_kinds"].get(k, 0) + v
+    expected_histories = sum(n ** l for nm, n, dd, ml in parts for l in range(ml, dd + 1))
+    R.set("parser_alphabets(name,ops,depth,min_len)", parts)
     R.fail_many(r["fails"])
     states |= {"P" + s for s in r["states"]}
     transitions += r["applied"]
@@ -492,13 +565,13 @@ def run(tier):
     # evidence only (not a verdict): is the end state a function of the last op?
     R.set("parser_end_state_determined_by_last_op",
           all(len(v) == 1 for v in r["last_state"].values()))
-    idx = [i for i, op in enumerate(pops) if op["filename"] == FILENAMES[0]]
+    idx = [i for i in core_idx if pops[i]["filename"] == FILENAMES[0]]  # evidence only: the core programs
     left = pristine.pristine_map(_left_behind_work, idx, repeat=1)
     R.set("parser_state_left_behind_per_program", {pops[i]["what"]: l[0] for i, l in zip(idx, left)})
-    if r["histories"] < sum(NP ** l for l in range(1, depth + 1)):
+    if r["histories"] != expected_histories:
         R.fail("harness:parser-histories-missing", {"part": "parser"}, str(r["histories"]))
     # distinct expected results: every (program, file name) except the empty text
-    if r["expected_distinct"] < NP - 1 or len(r["states"]) < 8 or len(r["outcome_kinds"]) < 2:
+    if r["expected_distinct"] < NP - 8 or len(r["states"]) < 8 or len(r["outcome_kinds"]) < 2:
         R.fail("harness:parser-part-vacuous", {"part": "parser"},
                f"distinct expected={r['expected_distinct']} states={len(r['states'])}")
     samples += [[pops[i]["what"] + "@" + pops[i]["filename"] for i in h]
@@ -507,7 +580,13 @@ def run(tier):
     # (1b) the same parser histories with every AST dropped (and collected)
     # before the next call, plus fixed long histories in pristine processes
     ddepth = 2 if quick else 3
-    d = hist.explore(DREF, ddepth, base[DREF], plen=1 if quick else 2)
+    d = hist.explore(DREF, 2, base[DREF], plen=1)
+    if ddepth > 2:
+        d2 = hist.explore(DREF, ddepth, base[DREF], plen=2, alphabet=core_idx, min_len=3)
+        for k in ("histories", "applied"):
+            d[k] += d2[k]
+        d["states"] |= d2["states"]
+        d["fails"] += d2["fails"]
     lf, lap = hist.long_histories(DREF, base[DREF], long_rotations(NP, 2))
     R.fail_many(lf)
     R.fail_many(d["fails"])
@@ -604,14 +683,15 @@ def run(tier):
     nontriv = (r["histories"] - NP) + (drop_hist - NP) + lex_hist + (gen_hist - len(GVARIANTS) * ng) + (fresh_hist - 2 * nf)
     R.set("distinct_nontrivial", nontriv)
     R.set("distinct_outcomes", r["expected_distinct"])
-    R.set("bounds", {"parser_sequences<=": depth, "parser_ops": NP,
+    R.set("bounds", {"parser_sequences<=": {"all %d ops" % NP: d_all, "core %d ops" % len(core_idx): d_core,
+                                            "lean %d ops" % len(lean_idx): d_lean}, "parser_ops": NP,
                      "lexer_chain_inputs": chain, "lexer_texts": nt,
                      "parser_sequences_with_dropped_asts<=": ddepth,
                      "generator_sequences<=": gdepth, "generator_asts": ng,
                      "generator_fresh_ast_texts": nf,
                      "generator_variants": ["reduce_parentheses=False", "reduce_parentheses=True", "subclass overriding visit_ID/visit_Constant/visit_BinaryOp", "subclass overriding visit()"]})
     R.assumptions += [
-        f"histories consist of the listed operations only ({len(PROGRAMS)} programs x {len(FILENAMES)} file names; {nt} lexer texts; {ng} ASTs)",
+        f"histories consist of the listed operations only ({len(PROGRAMS)} programs x {len(FILENAMES)} file names + {len(RARE)} rare-branch programs; {nt} lexer texts; {ng} ASTs)",
         "generator histories contain successful visits only, as the property states",
         "reference observations come from pristine processes (one per observation); the processes that run "
         "the histories run many of them, so module-level state is part of what is compared",
